@@ -69,7 +69,7 @@ def random_vector(rnd, max_groups=64):
 
 def ramp_pair(rnd):
     """(v, v2) integer-percent vectors with every prefix share of v2 >= that of v"""
-    n = rnd.randint(2, 6)
+    n = rnd.choice([2, 2, 3, 3, 4, 5, 6, 8, 9, 12])
     cuts = sorted(rnd.randint(0, 100) for _ in range(n - 1))
     cuts2 = sorted(min(100, c + rnd.randint(0, 30)) for c in cuts)
     def vec(cs):
